@@ -43,7 +43,7 @@ VOLUME_ASSUME = ("volume family (oracle only, no Coq cases; harness/tracker/volu
                  "logins waiting at the same time, login-less sessions open at the same time, events held by one session; sizes around powers of two and ten, each "
                  "dimension once per run at the tier's largest size), ordinary probe sessions started and completed all along, and an ordinary small history plus the "
                  "other halves of some waiting logins / open sessions at the end; judged by the property's oracle from the history alone, every call under the "
-                 "watchdog; the concurrent stages run their last programs on a correlator filled the same way (255 ... 2049 quick, up to 10001 thorough)")
+                 "watchdog; the concurrent stages run their last programs on a correlator filled the same way (255 ... 2049 quick, up to 4097 thorough; every schedule of such a program fills the tables anew)")
 TRACKER_MODELLED = ["processors/auditd/sessiontracker/sessiontracker.go (RemoteLogin, AuditdEvent, both cleanups, writeAndClearCache)"]
 
 
@@ -60,7 +60,7 @@ DAEMON_ASSUME = ("end-to-end stage: the built binary is fed through two real FIF
 def conc_extra(pid, n_quick=5, n_thorough=60):
     """Concurrent stage: forced single-preemption schedules on the real correlator under the race detector,
     judged by the property's own oracle on the final outcome."""
-    return [("tracker", TRACKER_OVERLAY, ["-mode", "conc", "-prop", pid, "-n", str(n_thorough), "-cvol", "6", "-volbig"], True,
+    return [("tracker", TRACKER_OVERLAY, ["-mode", "conc", "-prop", pid, "-n", str(n_thorough), "-cvol", "4", "-volbig"], True,
              ["-mode", "conc", "-prop", pid, "-n", str(n_quick), "-cvol", "1"])]
 
 
@@ -223,8 +223,8 @@ for _p in ("C05", "C07"):
 reg(Spec(
     "C03", "Props/C03.v", harness="tracker", overlay=TRACKER_OVERLAY, race=True,
     args_quick=["-mode", "conc", "-prop", "C03", "-n", "14", "-cvol", "3"],
-    args_thorough=["-mode", "conc", "-prop", "C03", "-n", "150", "-cvol", "12", "-volbig"],
-    args_search=["-mode", "conc", "-prop", "C03", "-n", "40", "-cvol", "6", "-volbig"],
+    args_thorough=["-mode", "conc", "-prop", "C03", "-n", "150", "-cvol", "8", "-volbig"],
+    args_search=["-mode", "conc", "-prop", "C03", "-n", "40", "-cvol", "2"],
     assumptions=TRACKER_ASSUME + [VOLUME_ASSUME,
         "one GenericSyncMap method call = one critical section; nested acquisition (Store(sessions) inside WithLockedValueDo(parked)) is modelled as one block",
         "schedules are forced at the VerifPoint hooks (just before each lock acquisition): exactly the granularity of the model's blocks",
